@@ -681,7 +681,13 @@ def run(tier, seed, replay):
         if res.failing:
             return fw.finish(res, None)
         fw.log("replay %s: the recorded input no longer fails" % replay)
-    fw.standard_pipeline(res, ["CorrTimes"], THEOREMS)
+    # operators acting at one and the same time are stacked through Control.add_single: the order
+    # of that composition (C18: regenerated operand order + stack_order theorems) is part of
+    # "each entry is the correlation for exactly these operators at these times"
+    c18 = ["OQuPyVerif.Props.C18.stack_order_partial", "OQuPyVerif.Props.C18.acts_once_at_step",
+           "OQuPyVerif.Props.C18.recorded_word"]
+    fw.standard_pipeline(res, ["CorrTimes", "ControlCompose"], THEOREMS + c18,
+                         extra_modules=["OQuPyVerif.Props.C18"])
     built = all(o[1] for o in res.obligations if o[0].startswith("translator"))
     try:
         if built:
@@ -690,4 +696,12 @@ def run(tier, seed, replay):
             res.notes.append("correspondence skipped: generated model unavailable")
     except fw.Infra as e:
         res.oblige("correspondence run", False, str(e))
-    return fw.finish(res, search)
+    def search_all(r):
+        search(r)
+        from . import run_C18
+        sub = fw.Result(PID, r.tier, r.seed)
+        run_C18.search(sub)
+        for key, payload in sub.failing:
+            if key != run_C18.KEY_MIXED:        # C18's known finding is not a C07 matter
+                r.fail("control-stack:" + key, payload)
+    return fw.finish(res, search_all)
